@@ -399,6 +399,19 @@ theorem peek_nb {lx : Lexer σ τ} (g : Good E m len raw lx) :
     exact ⟨rfl, rfl⟩
   · rw [peek_eq_nb g hend]; exact ⟨rfl, rfl⟩
 
+/-! ### `is_empty_with_filter` -/
+
+theorem emptyQ_good (ok : ScanOK E m len) {lx : Lexer σ τ} (g : Good E m len raw lx) :
+    Good E m len raw (lx.isEmptyWithFilter E).2 ∧ nb (lx.isEmptyWithFilter E).2 = nb lx :=
+  bn_good ok g
+
+theorem emptyQ_nb {lx : Lexer σ τ} (g : Good E m len raw lx) :
+    (lx.isEmptyWithFilter E).1 = ((nb lx).isEmptyWithFilter E).1 ∧
+      nb (lx.isEmptyWithFilter E).2 = nb ((nb lx).isEmptyWithFilter E).2 := by
+  unfold Lexer.isEmptyWithFilter
+  rw [bn_nb g]
+  exact ⟨rfl, rfl⟩
+
 /-! ### `next` -/
 
 theorem next_withBuf (ok : ScanOK E m len) {lx : Lexer σ τ} (g : Good E m len raw lx)
@@ -633,7 +646,7 @@ def isMetricsOp : Op τ → Bool
 
 /-- lookahead / span queries: erased by `project`, allowed outside forks. -/
 def isLook : Op τ → Bool
-  | .peek | .spans => true
+  | .peek | .emptyQ | .spans => true
   | _ => false
 
 /-- the span reported for an advance, as `deliveredAux` computes it. -/
@@ -671,6 +684,7 @@ theorem op_good (ok : ScanOK E m len) (fin : ScanFinal E m) {lx : Lexer σ τ} (
   cases op with
   | next => exact ⟨(next_good ok fin g).1, fun _ => seqOK_of_tokOK (next_good ok fin g).2⟩
   | peek => exact ⟨(peek_good ok g).1, fun h => by cases h⟩
+  | emptyQ => exact ⟨(emptyQ_good ok g).1, fun h => by cases h⟩
   | nextIf p => exact ⟨(nextIf_good ok fin p g).1, fun _ => seqOK_of_tokOK (nextIf_good ok fin p g).2⟩
   | advanceTo p => exact ⟨advanceTo_good ok fin p lx g, fun _ => seqOK_flag _ _⟩
   | advanceUpTo p => exact ⟨advanceUpTo_good ok fin p lx g, fun _ => seqOK_flag _ _⟩
@@ -692,6 +706,7 @@ theorem op_nb (ok : ScanOK E m len) {lx : Lexer σ τ} (g : Good E m len raw lx)
   cases op with
   | next => exact ⟨congrArg Out.tok (next_nb ok g).1, (next_nb ok g).2⟩
   | peek => exact ⟨congrArg Out.tok (peek_nb g).1, (peek_nb g).2⟩
+  | emptyQ => exact ⟨congrArg Out.flag (emptyQ_nb g).1, (emptyQ_nb g).2⟩
   | nextIf p => exact ⟨congrArg Out.tok (nextIf_nb p g).1, (nextIf_nb p g).2⟩
   | advanceTo p => exact ⟨congrArg Out.flag (advanceTo_nb ok p g).1, (advanceTo_nb ok p g).2⟩
   | advanceUpTo p => exact ⟨congrArg Out.flag (advanceUpTo_nb p g).1, (advanceUpTo_nb p g).2⟩
@@ -710,6 +725,7 @@ theorem op_look (ok : ScanOK E m len) {lx : Lexer σ τ} (g : Good E m len raw l
     (op : Op τ) (h : isLook op = true) : nb (applyOp E lx op).2 = nb lx := by
   cases op with
   | peek => exact (peek_good ok g).2
+  | emptyQ => exact (emptyQ_good ok g).2
   | spans => rfl
   | _ => cases h
 
